@@ -24,3 +24,26 @@ Definition dir_annotations (checksum name : str) : list (str * str) :=
 (* Store.push: needUnpack == "true" && !s.SkipUnpack *)
 Definition need_unpack (annots : list (str * str)) (skipUnpack : bool) : bool :=
   str_eqb (annot_get annots AnnotationUnpack) (b "true") && negb skipUnpack.
+
+(* Store.push of a named descriptor: unpack when the annotation asks for it and SkipUnpack is
+   off, otherwise the blob is written as a plain file under the name *)
+From Oras Require Import Model.TarRoundTrip.
+Section Push.
+  Variable digest : Type.
+  Variable H : str -> digest.
+  Variable digest_eqb : digest -> digest -> bool.
+  Variable dec : str -> option (list entry).
+  Variable gunz : str -> option str.
+
+  Definition push_named (skipUnpack : bool) (umask : N) (preserve : bool)
+             (annots : list (str * str)) (d : descriptor digest) (blob : str) : res (fs + node) :=
+    if need_unpack annots skipUnpack
+    then match unpack digest H digest_eqb dec gunz umask preserve d blob with
+         | Ok f => Ok (inl f)
+         | Err e => Err e
+         end
+    else match push_file digest H digest_eqb umask d blob with
+         | Ok n => Ok (inr n)
+         | Err e => Err e
+         end.
+End Push.
